@@ -114,10 +114,20 @@ class Generator:
         self._broadcast = None
         self._reach_n = 0
         self._vars = {}
+        self._lits = {}
         self._process_file(os.path.join(self.cdir, unit + ".rs"), g)
         for rel, sf in self._files.items():
             g.sources[rel] = hashlib.sha256(sf.src.encode()).hexdigest()
         return g
+
+    def _subst_lit(self, line):
+        if "${" not in line:
+            return line
+        def rep(mm):
+            if mm.group(1) not in self._lits:
+                raise AnchorLost("unknown literal constant ${%s}" % mm.group(1))
+            return self._lits[mm.group(1)]
+        return re.sub(r"\$\{(\w+)\}", rep, line)
 
     def _process_file(self, path, g):
         lines = open(path).read().split("\n")
@@ -126,7 +136,7 @@ class Generator:
             line = lines[i]
             s = line.strip()
             if not s.startswith("//@"):
-                g.lines.append(line)
+                g.lines.append(self._subst_lit(line))
                 i += 1
                 continue
             m = re.match(r"^//@\s*(\w+)\s*(.*)$", s)
@@ -138,6 +148,18 @@ class Generator:
                 self._vars[k] = v.strip()
                 i += 1
                 continue
+            if cmd == "litconst":
+                # `//@ litconst <src> <CONST> as=NAME`: the integer literal a `const` of the real source is
+                # initialised with becomes `${NAME}` in the spec text that follows (specs follow the code's constants)
+                pos, opts = self._opts(rest)
+                it = self.find(pos[0], pos[1])
+                mm = re.search(r"=\s*([0-9][0-9_]*)\s*;\s*$", it.text.strip())
+                if not mm or "as" not in opts:
+                    raise AnchorLost("litconst: %s is not initialised with an integer literal" % pos[1])
+                self._lits[opts["as"]] = mm.group(1).replace("_", "")
+                g.lines.append("// litconst %s = %s (%s)" % (opts["as"], self._lits[opts["as"]], pos[1]))
+                i += 1
+                continue
             rest = re.sub(r"\$(\w+)", lambda mm: self._vars.get(mm.group(1), ""), rest)
             # collect continuation lines
             cont = []
@@ -145,7 +167,7 @@ class Generator:
             while j < len(lines):
                 sj = lines[j].strip()
                 if re.match(r"^//@(\||loop\s|rewrite|rewriteall|before|afterstmt|after|sig\s|from\s|to\s|until\s)", sj):
-                    cont.append(sj)
+                    cont.append(self._subst_lit(sj))
                     j += 1
                 else:
                     break
@@ -600,6 +622,15 @@ class Generator:
             rules.append("R5 clone_from: %s" % m.group(0))
             return "%s = %s.clone()" % (m.group(1), m.group(2))
         body = rx.sub(r5, body)
+        # R7: `for (I, V) in E.iter().enumerate() {`  ->  `for I in 0..E.len() { let V = &E[I];`
+        # (Verus has no specification for the Enumerate adapter; E is a field/variable path, so it is
+        # evaluated without side effects and the two forms visit the same (index, &element) pairs)
+        rx7 = re.compile(r"for\s*\(\s*([A-Za-z_]\w*)\s*,\s*([A-Za-z_]\w*)\s*\)\s*in\s*([A-Za-z_][\w\.]*)\s*\.iter\(\)\s*\.enumerate\(\)\s*\{")
+        def r7(m):
+            rules.append("R7 enumerate: %s" % m.group(0))
+            i, v, e = m.group(1), m.group(2), m.group(3)
+            return "for %s in 0..%s.len() { let %s = &%s[%s];" % (i, e, v, e, i)
+        body = rx7.sub(r7, body)
         body = self._desugar_continue(body, rules)
         return body
 
